@@ -227,6 +227,12 @@ class FunctionCluster:
 
         if self.name is None:
             raise ValueError("Must provide a name for FunctionCluster")
+        if "#" in self.name or ":" in self.name:
+            # The name becomes the `cluster::` prefix of qualified names, where ':' and '#'
+            # delimit the module, the function and the version
+            raise ValueError(
+                "FunctionCluster name '{}' must not contain ':' or '#'".format(self.name)
+            )
 
         if storage is not None:
             self.storage = storage
